@@ -17,9 +17,11 @@ VARIABLES l, sid, cfg,
           finalItems,  \* items in an export call that returned ok / perm, or failed with retry disabled
           open,        \* export calls started and not returned
           anyFail, shutReq, shutRet, late,
-          offerErr     \* items of requests whose send call returned an error
+          offerErr,    \* items of requests whose send call returned an error
+          ulife        \* "new" | "started" | "stopped": the user's start function (exporterhelper.WithStart) has returned /
+                       \* the user's shutdown function (WithShutdown) has been called
 
-mvars == <<l, sid, cfg, before, given, attempts, finalItems, open, anyFail, shutReq, shutRet, late, offerErr>>
+mvars == <<l, sid, cfg, before, given, attempts, finalItems, open, anyFail, shutReq, shutRet, late, offerErr, ulife>>
 
 E == Log[l]
 Is(e) == l <= Len(Log) /\ E.ev = e /\ l' = l + 1
@@ -27,25 +29,28 @@ SetOf(s) == {s[i] : i \in 1..Len(s)}
 Report(clause, detail) == PrintT(<<"BEH", ToJson([script |-> sid, clause |-> clause, detail |-> detail])>>)
 
 MInit == /\ l = 1 /\ sid = "" /\ cfg = [queue |-> "none"] /\ before = {} /\ given = 0 /\ attempts = <<>>
-         /\ finalItems = {} /\ open = {} /\ anyFail = FALSE /\ shutReq = FALSE /\ shutRet = FALSE /\ late = FALSE /\ offerErr = {}
+         /\ finalItems = {} /\ open = {} /\ anyFail = FALSE /\ shutReq = FALSE /\ shutRet = FALSE /\ late = FALSE /\ offerErr = {} /\ ulife = "new"
 
 MReset == /\ Is("reset")
           /\ sid' = E.script /\ cfg' = E.cfg /\ before' = {} /\ given' = 0
           /\ attempts' = [i \in SetOf(E.universe) |-> 0]
-          /\ finalItems' = {} /\ open' = {} /\ anyFail' = FALSE /\ shutReq' = FALSE /\ shutRet' = FALSE /\ late' = FALSE /\ offerErr' = {}
+          /\ finalItems' = {} /\ open' = {} /\ anyFail' = FALSE /\ shutReq' = FALSE /\ shutRet' = FALSE /\ late' = FALSE /\ offerErr' = {} /\ ulife' = "new"
 
 MOfferStart == /\ Is("offer_start") /\ given' = given + E.n
-               /\ UNCHANGED <<sid, cfg, before, attempts, finalItems, open, anyFail, shutReq, shutRet, late, offerErr>>
+               /\ UNCHANGED <<sid, cfg, before, attempts, finalItems, open, anyFail, shutReq, shutRet, late, offerErr, ulife>>
 
 MOfferEnd == /\ Is("offer_end")
              /\ before' = IF E.res = "ok" /\ ~shutReq THEN before \cup SetOf(E.items) ELSE before
              /\ offerErr' = IF E.res # "ok" THEN offerErr \cup SetOf(E.items) ELSE offerErr
-             /\ UNCHANGED <<sid, cfg, given, attempts, finalItems, open, anyFail, shutReq, shutRet, late>>
+             /\ UNCHANGED <<sid, cfg, given, attempts, finalItems, open, anyFail, shutReq, shutRet, late, ulife>>
 
+\* (extra clause, not part of C03 / C19: documented order of BaseExporter.Start / Shutdown -- the wrapped exporter is started first
+\*  and shut down last, so the export function runs only inside the user's lifetime)
 MPushStart == /\ Is("push_start")
+              /\ (ulife # "started" => Report("ExportWithinUserLifetime", <<ulife, E.items>>))
               /\ attempts' = [i \in DOMAIN attempts |-> IF i \in SetOf(E.items) THEN attempts[i] + 1 ELSE attempts[i]]
               /\ open' = open \cup {E.call}
-              /\ UNCHANGED <<sid, cfg, before, given, finalItems, anyFail, shutReq, shutRet, late, offerErr>>
+              /\ UNCHANGED <<sid, cfg, before, given, finalItems, anyFail, shutReq, shutRet, late, offerErr, ulife>>
 
 MPushEnd == /\ Is("push_end")
             /\ open' = open \ {E.call}
@@ -55,14 +60,14 @@ MPushEnd == /\ Is("push_end")
             /\ finalItems' = IF E.out \in {"ok", "perm"} \/ ~cfg.retry THEN finalItems \cup SetOf(E.items)
                               ELSE IF Len(E.rem) > 0 THEN finalItems \cup (SetOf(E.items) \ SetOf(E.rem))
                               ELSE finalItems
-            /\ UNCHANGED <<sid, cfg, before, given, attempts, shutReq, shutRet, late, offerErr>>
+            /\ UNCHANGED <<sid, cfg, before, given, attempts, shutReq, shutRet, late, offerErr, ulife>>
 
 MLate == /\ Is("late_push") /\ late' = TRUE
          /\ Report("NoExportAfterReturn", E.items)
-         /\ UNCHANGED <<sid, cfg, before, given, attempts, finalItems, open, anyFail, shutReq, shutRet, offerErr>>
+         /\ UNCHANGED <<sid, cfg, before, given, attempts, finalItems, open, anyFail, shutReq, shutRet, offerErr, ulife>>
 
 MShutStart == /\ Is("shutdown_start") /\ shutReq' = TRUE
-              /\ UNCHANGED <<sid, cfg, before, given, attempts, finalItems, open, anyFail, shutRet, late, offerErr>>
+              /\ UNCHANGED <<sid, cfg, before, given, attempts, finalItems, open, anyFail, shutRet, late, offerErr, ulife>>
 
 \* C03 clauses that are decided at the moment Shutdown returns
 MShutEnd == /\ Is("shutdown_end") /\ shutRet' = TRUE
@@ -72,10 +77,10 @@ MShutEnd == /\ Is("shutdown_end") /\ shutRet' = TRUE
                   LET missing == {i \in before : attempts[i] = 0} IN missing # {} => Report("DrainedMemory", missing))
             /\ ((cfg.queue = "memory" /\ ~anyFail) =>
                   LET twice == {i \in before : attempts[i] > 1} IN twice # {} => Report("ExactlyOnceIfNoFailure", twice))
-            /\ UNCHANGED <<sid, cfg, before, given, attempts, finalItems, open, anyFail, shutReq, late, offerErr>>
+            /\ UNCHANGED <<sid, cfg, before, given, attempts, finalItems, open, anyFail, shutReq, late, offerErr, ulife>>
 
 MShutHang == /\ Is("shutdown_hang") /\ Report("ShutdownReturns", E.left)
-             /\ UNCHANGED <<sid, cfg, before, given, attempts, finalItems, open, anyFail, shutReq, shutRet, late, offerErr>>
+             /\ UNCHANGED <<sid, cfg, before, given, attempts, finalItems, open, anyFail, shutReq, shutRet, late, offerErr, ulife>>
 
 \* decided after the settle period: goroutines, durable contents, counters
 MFinal == /\ Is("final")
@@ -96,13 +101,18 @@ MFinal == /\ Is("final")
                                               \* items still stored although they went through an export attempt (finalised or not):
                                               \* the persistent queue keeps or deletes WHOLE requests
                                               storedAttempted |-> Cardinality({i \in SetOf(E.stored) : attempts[i] >= 1})]))
-          /\ UNCHANGED <<sid, cfg, before, given, attempts, finalItems, open, anyFail, shutReq, shutRet, late, offerErr>>
+          /\ UNCHANGED <<sid, cfg, before, given, attempts, finalItems, open, anyFail, shutReq, shutRet, late, offerErr, ulife>>
 
+MUStart == /\ Is("ustart_end") /\ ulife' = "started"
+           /\ UNCHANGED <<sid, cfg, before, given, attempts, finalItems, open, anyFail, shutReq, shutRet, late, offerErr>>
+MUStop == /\ Is("ushutdown_begin") /\ ulife' = "stopped"
+          /\ ((open # {} /\ cfg.queue # "none") => Report("ExportWithinUserLifetime", <<"export in flight when the user's shutdown function is called", open>>))
+          /\ UNCHANGED <<sid, cfg, before, given, attempts, finalItems, open, anyFail, shutReq, shutRet, late, offerErr>>
 MSkip == /\ l <= Len(Log) /\ E.ev \in {"note"} /\ l' = l + 1
-         /\ UNCHANGED <<sid, cfg, before, given, attempts, finalItems, open, anyFail, shutReq, shutRet, late, offerErr>>
+         /\ UNCHANGED <<sid, cfg, before, given, attempts, finalItems, open, anyFail, shutReq, shutRet, late, offerErr, ulife>>
 
 MNext == MReset \/ MOfferStart \/ MOfferEnd \/ MPushStart \/ MPushEnd \/ MLate \/ MShutStart \/ MShutEnd
-         \/ MShutHang \/ MFinal \/ MSkip
+         \/ MShutHang \/ MFinal \/ MSkip \/ MUStart \/ MUStop
 MSpec == MInit /\ [][MNext]_mvars
 AllConsumed == TLCGet("stats").diameter - 1 = Len(Log)
 =============================================================================
